@@ -103,3 +103,29 @@ def ak_rows(v):
         cols.append(ak.to_numpy(ak.drop_none(c)) if isinstance(c, ak.Array) else c)
     rows = [tuple(c[i] for c in cols) for i in range(len(cols[0]))] if cols else []
     return system, rows
+
+
+def to_list(x):
+    """flatten a scalar / NumPy array / Awkward array result to a flat Python list"""
+    if isinstance(x, ak.Array):
+        return ak.to_list(ak.flatten(x, axis=None))
+    if isinstance(x, ak.Record):
+        return [x]
+    if isinstance(x, numpy.ndarray):
+        return x.reshape(-1).tolist()
+    if isinstance(x, numpy.generic):
+        return [x.item()]
+    return [x]
+
+
+def make(backend, system, rows, momentum=False):
+    """vector(s) on `backend` in {object, numpy, awkward}; object -> list of objects"""
+    from vcheck import mpbackend
+
+    if backend == "object":
+        return [mpbackend.make(system, tuple(float(c) for c in r), momentum, False) for r in rows]
+    if backend == "numpy":
+        return np_array(system, rows, momentum)
+    if backend == "awkward":
+        return ak_flat(system, rows, momentum)
+    raise KeyError(backend)
